@@ -426,6 +426,8 @@ func main() {
 	}
 	n2, bad2 := twoCallers(out, r, thorough)
 	fmt.Fprintf(os.Stderr, "c17 driver: %d two-caller cases (%d with a hung caller; stops at 5)\n", n2, bad2)
+	nlo := multiPart(out, r, thorough)
+	fmt.Fprintf(os.Stderr, "c17 driver: %d split list-offsets cases (one sub-response cut)\n", nlo)
 	ntp, tslow := transportPath(out, r, thorough)
 	fmt.Fprintf(os.Stderr, "c17 driver: %d transport/writer end-to-end cases (slowest %v)\n", ntp, tslow.Round(time.Millisecond))
 	out.Flush()
